@@ -204,7 +204,7 @@ impl<'de, 'a> Visitor<'de> for PathProbe<'a> {
 pub fn run(ctx: &mut Ctx) {
     ctx.runner = "RunC18".into();
     ctx.shard_size = 300;
-    ctx.rule = "generated one-column schemas (every supported data type, nesting depth <= 3) and a node chosen at random depth (every data type as the innermost field under struct, list, large list, fixed-size list, map key, map value and union variant parents; the distribution is in the evidence); a fault is injected exactly at that node while the rest of the row is valid: serialization - a value the node's builder refuses, a null into a non-nullable node, an integer one past the range; deserialization of arrays produced from valid rows - a request the node's reader does not implement, an error raised by the visitor at that node; the annotations parsed from the Display text of the error (keys field and data_type) are compared inside Coq with the path and data type text of the node in the model (ser_at / de_at). Non-trivial = the node is below the top level; distinct by (schema, route, side, observed annotations)".into();
+    ctx.rule = "generated one-column schemas (every supported data type, nesting depth <= 3) and a node chosen at random depth (every data type as the innermost field under struct, list, large list, fixed-size list, map key, map value and union variant parents; the distribution is in the evidence); a fault is injected exactly at that node while the rest of the row is valid: serialization - a value the node's builder refuses, a null into a non-nullable node, an integer one past the range; deserialization of arrays produced from valid rows - a request the node's reader does not implement, an error raised by the visitor at that node; the annotations parsed from the Display text of the error (keys field and data_type) are compared inside Coq with the path and data type text of the node in the model (ser_at / de_at). Non-trivial = the node is below the top level; distinct by (schema, route, side, observed annotations). A directed sweep covers every leaf data type (38, incl. Decimal128, all temporal units, dictionaries) below every kind of parent x nullable or not x 4 faults (refused kind, null, out of range, unparsable text) x first batch / second batch of a reused builder x every deserialization mode".into();
     let n = if ctx.thorough { 30000 } else { 2500 };
     for _ in 0..n {
         let mut rng = ctx.rng.fork();
@@ -212,22 +212,78 @@ pub fn run(ctx: &mut Ctx) {
         let nm = *rng.pick(&["c", "", "x y", "é"]); let mut field = arrgen::gen_field(&mut rng, nm, d);
         if matches!(field.data_type, DataType::Float16) { field.data_type = DataType::Float32; }
         let route = pick_route(&mut rng, &field);
+        let (fault, reused, mode) = (rng.below(3), rng.chance(1, 2), rng.below(3) as u8);
+        probe(ctx, &mut rng, &field, &route, fault, reused, mode);
+    }
+    // directed: every leaf data type below every kind of parent, every fault, first batch and the
+    // second batch of a reused builder, every deserialization mode
+    let mut rng = ctx.rng.fork();
+    for leaf in all_leaves() {
+        for parent in 0..8usize {
+            for nullable in [false, true] {
+                let Some((field, route)) = under_parent(parent, &leaf, nullable) else { continue };
+                for fault in 0..4usize { for reused in [false, true] {
+                    ctx.count("directed:leaf_x_parent_x_fault_x_batch");
+                    probe(ctx, &mut rng, &field, &route, fault, reused, (fault % 3) as u8);
+                } }
+            }
+        }
+    }
+}
+
+fn all_leaves() -> Vec<DataType> {
+    use DataType as T; use marrow::datatypes::TimeUnit as U;
+    vec![T::Null, T::Boolean, T::Int8, T::Int16, T::Int32, T::Int64, T::UInt8, T::UInt16, T::UInt32, T::UInt64, T::Float32, T::Float64,
+         T::Date32, T::Date64, T::Time32(U::Second), T::Time32(U::Millisecond), T::Time64(U::Microsecond), T::Time64(U::Nanosecond),
+         T::Timestamp(U::Second, None), T::Timestamp(U::Millisecond, Some("UTC".into())), T::Timestamp(U::Microsecond, None), T::Timestamp(U::Nanosecond, Some("UTC".into())),
+         T::Duration(U::Second), T::Duration(U::Millisecond), T::Duration(U::Microsecond), T::Duration(U::Nanosecond),
+         T::Decimal128(5, 2), T::Decimal128(38, 0), T::Decimal128(10, -2),
+         T::Utf8, T::LargeUtf8, T::Utf8View, T::Binary, T::LargeBinary, T::BinaryView, T::FixedSizeBinary(2),
+         T::Dictionary(Box::new(T::Int8), Box::new(T::Utf8)), T::Dictionary(Box::new(T::UInt32), Box::new(T::LargeUtf8))]
+}
+
+fn under_parent(parent: usize, leaf: &DataType, nullable: bool) -> Option<(Field, Vec<usize>)> {
+    use DataType as T;
+    let mk = |n: &str, dt: DataType, nl: bool| Field { name: n.into(), data_type: dt, nullable: nl, metadata: Default::default() };
+    let nl = nullable || matches!(leaf, T::Null);
+    let l = |n: &str| mk(n, leaf.clone(), nl);
+    Some(match parent {
+        0 => (l("c"), vec![]),
+        1 => (mk("c", T::Struct(vec![mk("a", T::Int32, true), l("b")]), false), vec![1]),
+        2 => (mk("c", T::List(Box::new(l("element"))), true), vec![0]),
+        3 => (mk("c", T::LargeList(Box::new(l("item"))), false), vec![0]),
+        4 => (mk("c", T::FixedSizeList(Box::new(l("element")), 2), false), vec![0]),
+        5 => { if !matches!(leaf, T::Utf8 | T::LargeUtf8 | T::Int8 | T::Int16 | T::Int32 | T::Int64 | T::UInt8 | T::UInt16 | T::UInt32 | T::UInt64) || nullable { return None; }
+               (mk("c", T::Map(Box::new(mk("entries", T::Struct(vec![mk("key", leaf.clone(), false), mk("value", T::Int32, true)]), false)), false), false), vec![0]) }
+        6 => (mk("c", T::Map(Box::new(mk("entries", T::Struct(vec![mk("key", T::Utf8, false), l("value")]), false)), false), false), vec![1]),
+        _ => (mk("c", T::Union(vec![(0, mk("V0", T::Null, true)), (1, l("V1"))], marrow::datatypes::UnionMode::Dense), false), vec![1]),
+    })
+}
+
+/// text no parser of a temporal / decimal builder accepts
+fn bad_text(f: &Field) -> Option<Val> {
+    use DataType as T;
+    match &f.data_type { T::Date32 | T::Date64 | T::Time32(_) | T::Time64(_) | T::Timestamp(..) | T::Duration(_) | T::Decimal128(..) => Some(Val::Str("no such value".into())), _ => None }
+}
+
+fn probe(ctx: &mut Ctx, rng: &mut Rng, field: &Field, route: &[usize], fault: usize, reused: bool, mode: u8) {
+        let field = field.clone(); let route = route.to_vec();
         let target = node(&field, &route);
         let col = |v: Val| Val::Struct(vec![(field.name.clone(), v)], 0);
         let mut none = Inject { countdown: -1, what: None };
         // ---- serialization faults
-        let fault = rng.below(3);
         let (what, row) = match fault {
-            1 if !target.nullable && !matches!(target.data_type, DataType::Null | DataType::Union(..)) => ("null_into_non_nullable", spine(&mut rng, &field, &route, &mut |_, _| Val::None)),
-            2 if matches!(target.data_type, DataType::Int8 | DataType::Int16 | DataType::Int32 | DataType::UInt8 | DataType::UInt16 | DataType::UInt32) => ("integer_out_of_range", spine(&mut rng, &field, &route, &mut |_, _| Val::Int(IK::I64, 1 << 40))),
-            _ => ("refused_kind", spine(&mut rng, &field, &route, &mut |_, f| refused_value(f))),
+            1 if !target.nullable && !matches!(target.data_type, DataType::Null | DataType::Union(..)) => ("null_into_non_nullable", spine(rng, &field, &route, &mut |_, _| Val::None)),
+            2 if matches!(target.data_type, DataType::Int8 | DataType::Int16 | DataType::Int32 | DataType::UInt8 | DataType::UInt16 | DataType::UInt32) => ("integer_out_of_range", spine(rng, &field, &route, &mut |_, _| Val::Int(IK::I64, 1 << 40))),
+            3 if bad_text(&target).is_some() => ("unparsable_text", spine(rng, &field, &route, &mut |_, f| bad_text(f).unwrap_or(Val::None))),
+            _ => ("refused_kind", spine(rng, &field, &route, &mut |_, f| refused_value(f))),
         };
-        let valid_rows: Vec<Val> = (0..2).map(|_| col(spine(&mut rng, &field, &route, &mut |r, f| arrgen::gen_val(r, f, &mut Inject { countdown: -1, what: None })))).collect();
+        let valid_rows: Vec<Val> = (0..2).map(|_| col(spine(rng, &field, &route, &mut |r, f| arrgen::gen_val(r, f, &mut Inject { countdown: -1, what: None })))).collect();
         let mut rows = valid_rows.clone(); rows.push(col(row));
         // a null refused by a dictionary column is refused by its key builder (child 0 of the dictionary builder)
         let ser_route: Vec<usize> = if what == "null_into_non_nullable" && matches!(target.data_type, DataType::Dictionary(..)) { let mut r = route.clone(); r.push(0); r } else { route.clone() };
         // half of the faults are injected into the second batch of a reused ArrayBuilder
-        let reused = rng.chance(1, 2);
+        
         let ser_result = if reused {
             guarded(|| -> Result<Vec<marrow::array::Array>, String> {
                 let mut b = serde_arrow::ArrayBuilder::from_marrow(std::slice::from_ref(&field)).map_err(|e| e.to_string())?;
@@ -245,9 +301,9 @@ pub fn run(ctx: &mut Ctx) {
         }
         let _ = &mut none;
         // ---- deserialization faults on arrays of valid rows
-        let Out::Ok(arrays) = guarded(|| serde_arrow::to_marrow(std::slice::from_ref(&field), &valid_rows).map_err(|e| e.to_string())) else { ctx.count("de:skipped_rows_rejected"); continue };
+        let Out::Ok(arrays) = guarded(|| serde_arrow::to_marrow(std::slice::from_ref(&field), &valid_rows).map_err(|e| e.to_string())) else { ctx.count("de:skipped_rows_rejected"); return };
         let view = arrays[0].as_view();
-        let mode = rng.below(3) as u8;
+        
         let top = Field { name: "$".into(), data_type: DataType::Struct(vec![field.clone()]), nullable: false, metadata: Default::default() };
         let mut full_route = vec![0usize]; full_route.extend(route.iter().copied());
         let res = guarded(|| -> Result<bool, String> {
@@ -260,5 +316,4 @@ pub fn run(ctx: &mut Ctx) {
             Out::Ok(_) => ctx.count("de:target_not_reached"),
             Out::Panic(p) => { let idx = ctx.add_case(format!("{{| c_field := mkY [] YNull true [] None; c_route := []; c_ser := false; c_obs_field := Some (b \"$.<empty>\"); c_obs_dt := Some (b \"Null\") |}}"), json!({"field": format!("{:?}", field), "panic": p}), true); ctx.fail(idx, "panic", format!("deserialization panics: {}", p)); }
         }
-    }
 }
